@@ -198,7 +198,14 @@ def make_globals(tape):
         if w.pop() == 7:
             raise TErr(i)
         return w.fresh()
-    return w, {"T": T}
+
+    def Tv(i, v):
+        """a tracer that hands its second argument on (value stream): logs, may raise by tape like T"""
+        w.log.append(f"T({i})")
+        if w.pop() == 7:
+            raise TErr(i)
+        return v
+    return w, {"T": T, "Tv": Tv}
 
 
 # ------------------------------------------------------------------ program generator (trace stream)
@@ -279,7 +286,9 @@ class G:
             if rng.random() < 0.15:
                 j = rng.choice([1, 9])
                 e = self.sink(d - 1)
-                kws.append((f"**{{'k{j}': {e[0]}}}", ["ss", ["dict", ["kv", ["fstr", ["lit", 900 + j]], e[1]]]]))
+                # the `**` unpacking may stand before, between or after the explicit keywords
+                kws.insert(rng.randrange(0, len(kws) + 1),
+                           (f"**{{'k{j}': {e[0]}}}", ["ss", ["dict", ["kv", ["fstr", ["lit", 900 + j]], e[1]]]]))
                 self.feats.add("kw-splat")
                 if j in names:
                     self.feats.add("dup-keyword")
@@ -518,6 +527,10 @@ def value_cases(rng, tier):
         ("a1 = b1 = [1]\na1 += [2]\n", ["augassign", "aug-alias"]),
         ("L = [[0]]\nL[0][0] += 1\n", ["augassign"]),
         ("def f(**kw):\n    return kw\nr = f(x=1, **{'x': 2})\n", ["dup-keyword"]),
+        ("def f(**kw):\n    return kw\nr = f(**{'x': 2}, x=1)\n", ["dup-keyword"]),
+        ("def f(a, **kw):\n    return (a, kw)\nr = f(1, **{'c': 1}, c=2)\n", ["dup-keyword"]),
+        ("def f(**kw):\n    return kw\nr = f(**{'x': 2}, **{'x': 3})\n", ["dup-keyword"]),
+        ("r = dict(**{'x': 2}, x=1)\n", ["dup-keyword"]),
         ("def f(*a, **kw):\n    return (a, kw)\nr = f(1, *[2, 3], k=4, **{'m': 5})\n", ["call"]),
         ("x = 5\ntry:\n    [1 / 0 for x in [1]]\nexcept ZeroDivisionError:\n    pass\n", ["comprehension", "comp-leak-on-exception"]),
         ("x = [3, 1, 2]\ndel x[0]\ny = 4\ndel y\n", ["delete"]),
@@ -535,7 +548,92 @@ def value_cases(rng, tier):
     ]
     for src, feats in extra:
         add(src, *feats)
+    # comprehensions: every clause carries a tracer, so the order of evaluation, the short-circuit between `if` clauses,
+    # lazily re-evaluated inner iterables, the isolation of the loop variables and what happens when a clause raises are
+    # all visible in the trail
+    seen = set()
+    for _ in range(260 if tier == "quick" else 4000):
+        src, tape = CompGen(rng).program()
+        if (src, tuple(tape)) in seen:
+            continue
+        seen.add((src, tuple(tape)))
+        try:
+            compile(src, "t", "exec")
+        except SyntaxError:
+            continue
+        out.append(Case({"stream": "value", "src": src, "tape": tape, "features": ["comprehension", "comp-traced"]}, None,
+                        tags=["value", "comprehension", "comp-traced"]))
     return out
+
+
+class CompGen:
+    def __init__(self, rng):
+        self.rng = rng
+        self.k = itertools.count(1)
+
+    def tv(self, e):
+        return f"Tv({next(self.k)}, {e})"
+
+    def cond(self, vars_):
+        rng = self.rng
+        v = rng.choice(vars_)
+        w = rng.choice(vars_)
+        return rng.choice([f"{v} % 2 == 0", f"{v} != 0", f"8 // {v} > 1", f"{v} < {w} + 1", "True", f"({v}w := {v}) > 0",
+                           f"{v} not in (1,)", f"{v}"])
+
+    def iterable(self, outer):
+        rng = self.rng
+        c = rng.random()
+        if outer and c < 0.35:
+            return f"range({rng.choice(outer)})"
+        if c < 0.6:
+            return "[" + ", ".join(str(rng.choice([0, 1, 2, 3, 4])) for _ in range(rng.randrange(0, 4))) + "]"
+        if c < 0.8:
+            return f"range({rng.randrange(0, 4)})"
+        return rng.choice(["(3, 0, 2)", "{1: 2, 0: 1}", "'ab'", "[2, 2]"]) if c < 0.95 else "5"   # 5: not iterable
+
+    def comp(self, depth=1):
+        rng = self.rng
+        names = ["x", "y"] if rng.random() < 0.8 else ["y", "x"]
+        ngen = rng.choice([1, 1, 2])
+        gens, bound = [], []
+        for gi in range(ngen):
+            it = self.iterable(bound if all(b in ("x", "y") for b in bound) else [])
+            if "'ab'" in it or "5" == it:
+                pass
+            v = names[gi]
+            clause = f"for {v} in {self.tv(it)}"
+            bound.append(v)
+            numeric = "'ab'" not in it
+            for _ in range(rng.choice([0, 1, 1, 2, 3])):
+                clause += f" if {self.tv(self.cond(bound) if numeric else 'True')}"
+            gens.append(clause)
+        e = rng.choice(bound)
+        elt_pool = [e, f"({', '.join(bound)})", f"{e} * 2" if True else e]
+        if depth > 0 and rng.random() < 0.25:
+            elt_pool.append(self.comp(depth - 1))
+        elt = self.tv(rng.choice(elt_pool))
+        kind = rng.choice(["list", "list", "set", "dict"])
+        body = " ".join(gens)
+        if kind == "list":
+            return f"[{elt} {body}]"
+        if kind == "set":
+            return "{" + f"{self.tv(e)} {body}" + "}"
+        return "{" + f"{self.tv(e)}: {elt} {body}" + "}"
+
+    def program(self):
+        rng = self.rng
+        c = self.comp()
+        n = next(self.k)
+        tape = [rng.choice([0, 0, 0, 0, 0, 0, 0, 0, 7]) for _ in range(rng.randrange(0, 3 * n))] if rng.random() < 0.5 else []
+        if rng.random() < 0.5:
+            src = f"x = 10\ny = 20\nr = {c}\n"
+        else:
+            # inside a function whose x is shared with a closure: the loop variable must not write through
+            src = ("x = 100\ndef f():\n    x = 10\n    y = 20\n    def g():\n        return (x, y)\n"
+                   f"    try:\n        r = {c}\n    except (ZeroDivisionError, TypeError) as e:\n        r = type(e).__name__\n"
+                   "    return (r, x, y, g())\nR = f()\n")
+        return src, tape
 
 
 # ------------------------------------------------------------------ running
@@ -574,7 +672,7 @@ def finish(w, G0, exc, stream):
     if exc is not None:
         res = "exc:" + (f"T{exc.i}" if isinstance(exc, TErr) else type(exc).__name__)
     else:
-        items = {k: v for k, v in G0.items() if k != "T" and not k.startswith("__")
+        items = {k: v for k, v in G0.items() if k not in ("T", "Tv") and not k.startswith("__")
                  and (isinstance(v, V) or not callable(v))}
         if stream == "trace":
             res = "ok:" + ",".join(sorted(f"{k}={name_of(v)}" for k, v in items.items()))
